@@ -22,6 +22,7 @@ mod c20;
 mod dist;
 mod x01;
 mod x02;
+mod x03;
 
 fn main() {
     common::silence_panics();
@@ -66,6 +67,7 @@ fn main() {
             match sub.as_str() {
                 "C01" => c01::record(seed, n, out),
                 "X02" => x02::record(seed, n, out),
+                "X03" => x03::record(seed, n, out),
                 "C03" => { c03::record(&args[6], &args[7], seed, n, out); std::process::exit(0) }
                 "C04" => c04::record(seed, n, out, args.get(6).and_then(|s| s.parse().ok()).unwrap_or(300)),
                 "C05" => c05::record(seed, n, out, args.get(6).and_then(|s| s.parse().ok()).unwrap_or(12)),
